@@ -1,5 +1,6 @@
 """C06 - fragmentation and reassembly preserve bytes; nothing is fabricated."""
 import struct
+import random
 import collections
 
 from checks.common import UdpCheck, gen_traffic, limits, Monitor, FragExpiryProbe
@@ -7,6 +8,10 @@ from checks.c05 import open_pairs, lenclass
 from world.udpworld import sig, PacketType
 
 FRAG_LIMIT = 1024 * 0x2000
+
+
+def frag_limit(mtu):
+    return limits(mtu)["frag"] * 0x2000
 
 
 class FragWire(Monitor):
@@ -89,10 +94,17 @@ class C06(UdpCheck):
         if rng.random() < (0.08 if tier == "quick" else 0.15):
             op = dict(rng.choice(sends)) if sends else None
             if op:
-                op["len"] = FRAG_LIMIT + rng.choice([1, 2, 17, 1024])
+                # (the limit is MAX_FRAGMENTS fragments of the fragment size of THIS run's MTU: smaller below MTU 1096)
+                op["len"] = frag_limit(mtu) + rng.choice([1, 2, 17, 1024])
                 op["kind"] = 1
                 op["over_limit"] = True
                 plan.append(op)
+        rng2 = random.Random("c06-mutable|%s" % (rng.getstate()[1][:3],))       # (does not consume from the main stream)
+        if sends and rng2.random() < 0.25:
+            # a few sends hand over a bytearray that the application overwrites right after the call (all retry modes, so
+            # that a retransmission would read the buffer again)
+            for op in rng2.sample(sends, min(len(sends), rng2.choice([1, 2, 4]))):
+                op["mutable"] = True
         case["fault_free"] = not faulty
         return case
 
@@ -139,7 +151,7 @@ class C06(UdpCheck):
         sent_by = collections.defaultdict(collections.Counter)     # (sender, receiver) -> Counter(sig)
         for rec in w.sends:
             sent_by[(rec["who"], rec["peer"])][rec["sig"]] += 1
-            if rec["len"] > FRAG_LIMIT:
+            if rec["len"] > frag_limit(mtu):
                 if rec["ok"] is not False or rec.get("exc") != "ValueError":
                     vs.append({"kind": "over_limit_not_refused", "key": "ok=%s:exc=%s" % (rec["ok"], rec.get("exc")),
                                "detail": {"len": rec["len"], "who": rec["who"]}})
@@ -189,7 +201,7 @@ class C06(UdpCheck):
             dl = collections.Counter((d[1], d[3]) for d in w.delivs)
             for cnode, cconn, sconn in open_pairs(w):
                 for rec in w.sends:
-                    if rec["ok"] is not True or rec["status"] != "CONNECTED" or rec["len"] > FRAG_LIMIT:
+                    if rec["ok"] is not True or rec["status"] != "CONNECTED" or rec["len"] > frag_limit(case["cfg"]["mtu"]):
                         continue
                     if rec["t"] > case["cfg"]["t_heal"]:
                         continue
